@@ -33,6 +33,19 @@ def asinKernel (p : Int) (x : Int) : M Int := do
   let y10 ← chk64 (c1 + m)
   mul_ p x y10
 
+/-- `asin`, branch `x_ ≤ 0.60` : `asin<20>(x_ << 4) >> 4` -/
+def asinSmall (x_ : Int) : M Int := do
+  let a ← shl64 x_ 4
+  let r ← asinKernel 20 a
+  shr64 r 4
+
+/-- `asin`, branch `x_ > 0.60`, after `sqr = sqrt((1 - x_) >> 1)` : `fixpidiv2 - (asin<20>(sqr << 4) >> 3)` -/
+def asinBig (sqr : Int) : M Int := do
+  let a ← shl64 sqr 4
+  let r ← asinKernel 20 a
+  let r ← shr64 r 3
+  chk64 (fixpidiv2 - r)
+
 /-- `asin` -/
 def asin (be : SqrtBE) (x : Int) : M Int := do
   let x_ ← if x < 0 then chk64 (-x) else pure x
@@ -40,18 +53,13 @@ def asin (be : SqrtBE) (x : Int) : M Int := do
   let one ← toFixed .i64 1          -- `(1_fix).v`
   if x_ ≤ one then
     if x_ ≤ asin_split then do
-      let a ← shl64 x_ 4
-      let r ← asinKernel 20 a
-      let r ← shr64 r 4
+      let r ← asinSmall x_
       setSign sign r
     else do
       let d ← chk64 (one - x_)
       let d ← shr64 d 1
       let sqr ← sqrt be d
-      let a ← shl64 sqr 4
-      let r ← asinKernel 20 a
-      let r ← shr64 r 3
-      let r ← chk64 (fixpidiv2 - r)
+      let r ← asinBig sqr
       setSign sign r
   else pure NaNp
 
